@@ -203,6 +203,12 @@ impl Iterator for BitBoardIter {
     #[cfg(target_feature = "bmi2")]
     #[cfg(any(target_arch = "x86", target_arch = "x86_64"))]
     fn nth(&mut self, n: usize) -> Option<Self::Item> {
+        // skipping past the end consumes the iterator, like the default implementation does
+        if n >= usize::from(self.0.count()) {
+            self.0 = BitBoard::empty();
+            return None;
+        }
+
         let x = unsafe { core::arch::x86_64::_pdep_u64(1 << n, self.0.to_u64()) }.trailing_zeros()
             as u8;
         let pos = Pos::from_u8(x)?;
